@@ -198,6 +198,33 @@ def tsan_reports(san):
         out.append((cls, '|'.join(sorted(set(sites))[:2]), block[:4000]))
     return out
 
+LIFECYCLE_FLAGS = {'bidib_running', 'bidib_discard_rx', 'bidib_seq_num_enabled', 'bidib_lowlevel_debug_mode'}
+
+def helgrind_reports(san):
+    """-> list of (class, site-pair, text): 'Possible data race' blocks of valgrind --tool=helgrind in which BOTH access stacks pass through library
+    code; the four volatile lifecycle flags (same list as tsan.supp) and the harness' own condition variables are not library state."""
+    repo_files = {os.path.basename(f) for f in build.repo_sources()}
+    out = []
+    for b in re.split(r'==\d+== -{40,}\n', san):
+        if 'Possible data race' not in b:
+            continue
+        sym = re.search(r'data symbol "(\w+)"', b)
+        if sym and sym.group(1) in LIFECYCLE_FLAGS:
+            continue
+        parts = b.split('This conflicts with')
+
+        def top_repo(p):
+            for m in re.finditer(r'(?:at|by) 0x[0-9A-Fa-f]+: (\S+) \(([^:)]+):\d+\)', p):
+                if m.group(2) in repo_files:
+                    return m.group(1)
+            return None
+        a = top_repo(parts[0])
+        c = top_repo(parts[1]) if len(parts) > 1 else None
+        if not a or (len(parts) > 1 and not c):
+            continue
+        out.append(('helgrind-race', '|'.join(sorted({a, c or a})), re.sub(r'==\d+== ', '', b)[:4000]))
+    return out
+
 def outcome(r):
     """classifies how the process ended: 'ok', 'asan', 'crash', 'hang', 'selfdeadlock', 'harness'"""
     if r.timed_out:
